@@ -4,6 +4,7 @@ package c01
 // helpers: Prometheus list series as replicas, exported Thanos API only. Informational (never fails); run with
 //   go test -tags slicelabels,verif -vet=off -count=1 -run TestRepro -v ./checks/c01/
 import (
+	"math"
 	"testing"
 
 	"github.com/prometheus/prometheus/model/histogram"
@@ -14,6 +15,8 @@ import (
 	"github.com/prometheus/prometheus/util/annotations"
 
 	"github.com/thanos-io/thanos/pkg/dedup"
+	"github.com/thanos-io/thanos/pkg/query"
+	"github.com/thanos-io/thanos/pkg/store/storepb"
 )
 
 type fs struct {
@@ -68,9 +71,47 @@ func TestReproSeekBeforeFirstNext(t *testing.T) {
 	a := []chunks.Sample{fs{10, 1}, fs{20, 1}}
 	b := []chunks.Sample{fs{10, 2}, fs{20, 2}}
 	t.Logf("identical timestamps: Next-only %v", reproRead(t, nil, a, b))
-	t.Logf("identical timestamps: Seek(5) first %v   <- first sample emitted twice", reproRead(t, &five, a, b))
+	t.Logf("identical timestamps: Seek(5) first %v   (before fix dea1353e9: first sample emitted twice)", reproRead(t, &five, a, b))
 	a = []chunks.Sample{fs{10, 1}}
 	b = []chunks.Sample{fs{5, 2}}
 	t.Logf("a=[10] b=[5]: Next-only %v", reproRead(t, nil, a, b))
-	t.Logf("a=[10] b=[5]: Seek(3) first %v   <- replica b ignored by Seek, then time goes backwards", reproRead(t, &three, a, b))
+	t.Logf("a=[10] b=[5]: Seek(3) first %v   (before fix dea1353e9: replica b ignored by Seek, then time went backwards)", reproRead(t, &three, a, b))
+}
+
+// Plain reproduction of the single-replica Seek(MinInt64)-first defect (query.chunkSeriesIterator.Seek compares the
+// timestamp of a chunk iterator that has not read a sample yet, math.MinInt64, with the target). Exported API only:
+// the querier's promSeriesSet over one XOR chunk, handed through dedup.NewSeriesSet unmerged (one replica).
+// Informational (never fails); run with
+//
+//	go test -tags slicelabels,verif -vet=off -count=1 -run TestReproSingle -v ./checks/c01/
+func TestReproSingleReplicaSeekMinInt64(t *testing.T) {
+	read := func(seek *int64) (out [][2]float64) {
+		c := chunkenc.NewXORChunk()
+		app, _ := c.Appender()
+		app.Append(10, 1)
+		app.Append(20, 2)
+		one := &pbSet{lset: labels.FromStrings("a", "1"), chks: []storepb.AggrChunk{{MinTime: 10, MaxTime: 20, Raw: &storepb.Chunk{Type: storepb.Chunk_XOR, Data: c.Bytes()}}}}
+		in := query.NewPromSeriesSet(one, math.MinInt64, math.MaxInt64, []storepb.Aggr{storepb.Aggr_COUNT, storepb.Aggr_SUM}, nil)
+		set := dedup.NewSeriesSet(in, "", dedup.AlgorithmPenalty)
+		if !set.Next() {
+			t.Fatal("no series")
+		}
+		it := set.At().Iterator(nil)
+		if seek != nil {
+			if it.Seek(*seek) == chunkenc.ValNone {
+				return nil
+			}
+			ts, v := it.At()
+			out = append(out, [2]float64{float64(ts), v})
+		}
+		for it.Next() != chunkenc.ValNone && len(out) < 10 {
+			ts, v := it.At()
+			out = append(out, [2]float64{float64(ts), v})
+		}
+		return out
+	}
+	lo, lo1 := int64(math.MinInt64), int64(math.MinInt64+1)
+	t.Logf("one replica [10,20]: Next-only          %v", read(nil))
+	t.Logf("one replica [10,20]: Seek(MinInt64+1)   %v", read(&lo1))
+	t.Logf("one replica [10,20]: Seek(MinInt64)     %v   <- no sample at all", read(&lo))
 }
